@@ -57,14 +57,14 @@ def reset_process_state():
 
 
 def run_tool(tool, argv, fs, sim=None, stdin=b"", stdin_plan=None,
-             stdout_fail=None, clock=None):
+             stdout_fail=None, clock=None, stdin_closed=False):
     """argv excludes the program name.  stdin: bytes.  clock: a SimClock
     that answers every question about the time and the day."""
     if clock is not None:
         from detsim.simclock import installed_clock
         with installed_clock(clock):
             return run_tool(tool, argv, fs, sim, stdin, stdin_plan,
-                            stdout_fail)
+                            stdout_fail, stdin_closed=stdin_closed)
     mod = TOOLS[tool]
     out = Outcome()
     so = SimStream(name="<stdout>", fail_write=stdout_fail)
@@ -73,7 +73,9 @@ def run_tool(tool, argv, fs, sim=None, stdin=b"", stdin_plan=None,
     saved = (sys.argv, sys.stdin, sys.stdout, sys.stderr)
     reset_process_state()
     sys.argv = [tool] + [str(a) for a in argv]
-    sys.stdin, sys.stdout, sys.stderr = si, so, se
+    # (a process started with its standard input closed, 'cmd <&-', has
+    # sys.stdin = None)
+    sys.stdin, sys.stdout, sys.stderr = (None if stdin_closed else si), so, se
     try:
         with open_router(fs):
             if sim is not None:
